@@ -20,6 +20,13 @@ for d in sorted(os.listdir(os.path.join(ROOT, "seeded"))):
         keys = sorted(set(re.findall(r"key=(\S+)", " ".join(v["lines"]))))
         det.append("%s: %s" % (cid, ("**caught** (%s)" % ", ".join(k[:60] for k in keys[:2])) if v["detected"] else "not caught"))
     rows.append("| %s | %s | %s | %s | %s |" % (d, m["property"], "yes" if m.get("confirmed") else "no", title.replace("|", "/"), "; ".join(det)))
-print("| seed | property | confirmed | change | checks (quick tier, seed 1) |")
-print("|---|---|---|---|---|")
-print("\n".join(rows))
+import sys
+table = "| seed | property | confirmed | change | checks (quick tier, seed 1) |\n|---|---|---|---|---|\n" + "\n".join(rows)
+if len(sys.argv) > 2 and sys.argv[1] == "--into":
+    # replace the block between the markers in the given markdown file
+    t = open(sys.argv[2]).read()
+    b, e = "<!-- seedtable:begin -->", "<!-- seedtable:end -->"
+    t = t[:t.index(b) + len(b)] + "\n" + table + "\n" + t[t.index(e):]
+    open(sys.argv[2], "w").write(t)
+else:
+    print(table)
